@@ -88,7 +88,44 @@ func NewEngine(repo *chain.Repository, mainDB *muxdb.MuxDB, forkConfig *thor.For
 		engine.finalized.Store(thor.BytesToBytes32(val))
 	}
 
+	if err := engine.recoverInterruptedCommit(); err != nil {
+		// not fatal: the node then behaves as it did before this recovery existed
+		logger.Warn("failed to recover an interrupted bft commit", "err", err)
+	}
+
 	return &engine, nil
+}
+
+// recoverInterruptedCommit completes a CommitBlock that a crash prevented.
+//
+// The node stores a block (repo.AddBlock) before CommitBlock persists the quality of a store point.
+// If the process dies in between, the block is known when it is delivered again and is never committed:
+// its quality stays missing, getQuality reads 0 and every later round of that branch starts from a too-low
+// quality. Such a block has no children yet, so it is one of the branch heads: commit those that lack a quality.
+func (engine *Engine) recoverInterruptedCommit() error {
+	heads, err := engine.repo.ScanHeads(block.Number(engine.Finalized()))
+	if err != nil {
+		return err
+	}
+	for _, id := range heads {
+		num := block.Number(id)
+		if num == 0 || num < engine.forkConfig.FINALITY || getStorePoint(num) != num {
+			continue
+		}
+		if _, err := loadQuality(engine.data, id); err == nil {
+			continue
+		} else if !engine.data.IsNotFound(err) {
+			return err
+		}
+		sum, err := engine.repo.GetBlockSummary(id)
+		if err != nil {
+			return err
+		}
+		if err := engine.CommitBlock(sum.Header, sum.Conflicts, false); err != nil {
+			return err
+		}
+	}
+	return nil
 }
 
 // Resync recomputes and persists BFT quality for every storePoint from the first
